@@ -39,13 +39,13 @@ struct Paths {
       while (di < devs.size() && devs[di].first == i) {
         Tape t; t.bit_fill = lim.bit_fill; t.raw_fill = lim.raw_fill;
         try { TapeScope sc(t); sys.apply(*s, devs[di].second, &ctx); } catch (const std::exception& e) { ctx.fail("unexpected-exception", std::string("operation threw: ") + e.what()); }
-        ++di; ++steps; sys.check(*s, ctx);
+        ++di; ++steps; safe_check(sys, *s, ctx);
       }
       if (i == def.size()) break;
       Tape t; t.bit_fill = lim.bit_fill; t.raw_fill = lim.raw_fill;
       try { TapeScope sc(t); sys.apply(*s, def[i], &ctx); } catch (const std::exception& e) { ctx.fail("unexpected-exception", std::string("operation threw: ") + e.what()); }
       ++steps; ++n;
-      if (i >= first_dev && (n % lim.check_stride == 0 || i + 1 == def.size())) sys.check(*s, ctx);
+      if (i >= first_dev && (n % lim.check_stride == 0 || i + 1 == def.size())) safe_check(sys, *s, ctx);
       if (!ctx.fails.empty()) break;
     }
     if (asan_errors() != a0) ctx.fail("asan", "AddressSanitizer report on this path");
